@@ -183,6 +183,92 @@ theorem empty_range (mn mx : Option W) (im iM : Option Bool) (d : W)
 theorem gen_shiftStart : Gen.shiftStartInt64 = shiftStart := by decide
 theorem gen_precisionStep : Gen.numericPrecisionStep = precisionStep := by decide
 
+/-! ## the shift-0 term of a value decodes back to the value -/
+
+theorem or_digit (a d : Nat) (hd : d < 128) : (a * 128) ||| d = a * 128 + d := by
+  have h := Nat.shiftLeft_add_eq_or_of_lt (i := 7) (b := d) (by simpa using hd) a
+  rw [Nat.shiftLeft_eq] at h
+  simpa using h.symm
+
+theorem decode_digits (k : Nat) : ∀ (a u : Nat), u < 128^k → a * 128^k + u < 2^64 →
+    (digits k u).foldl (fun a b => ((a * 128) % 2^64) ||| b) a = a * 128^k + u := by
+  induction k with
+  | zero => intro a u hu _; simp [digits]; omega
+  | succ k ih =>
+    intro a u hu hb
+    simp only [digits, List.foldl_cons]
+    have hp : 0 < 128^k := Nat.pow_pos (by decide)
+    have hdiv : u / 128^k < 128 := by
+      rw [Nat.div_lt_iff_lt_mul hp]; rw [Nat.pow_succ] at hu; omega
+    have hmod : u / 128^k % 128 = u / 128^k := Nat.mod_eq_of_lt hdiv
+    have hsplit : u = 128^k * (u / 128^k) + u % 128^k := (Nat.div_add_mod u (128^k)).symm
+    have hpow : 128^(k+1) = 128^k * 128 := Nat.pow_succ ..
+    have ha : a * 128 < 2^64 := by
+      have : a * 128 ≤ a * 128^(k+1) := by
+        rw [hpow]; calc a * 128 = a * (1 * 128) := by omega
+          _ ≤ a * (128^k * 128) := Nat.mul_le_mul_left _ (Nat.mul_le_mul_right _ hp)
+      omega
+    rw [Nat.mod_eq_of_lt ha, hmod, or_digit _ _ hdiv]
+    have hml : u % 128^k < 128^k := Nat.mod_lt _ hp
+    have e : (a * 128 + u / 128^k) * 128^k + u % 128^k = a * 128^(k+1) + u := by
+      rw [hpow, Nat.add_mul, Nat.mul_assoc, Nat.mul_comm 128 (128^k), Nat.mul_comm (u / 128^k) (128^k)]
+      omega
+    rw [ih _ _ hml (by omega), e]
+
+theorem xor_top (u : Nat) (hu : u < 2^64) :
+    u ^^^ 2^63 = if u < 2^63 then u + 2^63 else u - 2^63 := by
+  have hd : (u ^^^ 2^63) / 2^63 = (u / 2^63) ^^^ 1 := by
+    rw [Nat.xor_div_two_pow, Nat.div_self (by decide)]
+  have hm : (u ^^^ 2^63) % 2^63 = u % 2^63 := by
+    rw [Nat.xor_mod_two_pow]; simp
+  have hs := Nat.div_add_mod (u ^^^ 2^63) (2^63)
+  generalize u ^^^ 2^63 = x at hd hm hs ⊢
+  split
+  · rename_i h
+    have h0 : u / 2^63 = 0 := by omega
+    rw [h0] at hd
+    have h1 : (0 : Nat) ^^^ 1 = 1 := by decide
+    rw [h1] at hd
+    omega
+  · rename_i h
+    have h0 : u / 2^63 = 1 := by omega
+    rw [h0] at hd
+    have h1 : (1 : Nat) ^^^ 1 = 0 := by decide
+    rw [h1] at hd
+    omega
+
+/-- **Round trip of the term encoding**: the full-precision (shift 0) term of an int64 is recognised
+as a shift-0 term and decodes to the same int64. -/
+theorem decode_prefixCode_zero (v : Int) (hv : inI64 v = true) (t : List Nat)
+    (ht : prefixCode v 0 = some t) : shiftOf t = some 0 ∧ decodeInt64 t = some v := by
+  simp only [inI64, Bool.and_eq_true, decide_eq_true_eq] at hv
+  simp only [prefixCode, if_false, Option.some.injEq, Nat.add_zero, Nat.pow_zero, Nat.div_one,
+    show ¬ (0 > 63) by omega] at ht
+  subst ht
+  have hsh : shiftOf (shiftStart :: digits (nChars 0) (sortable v)) = some 0 := by
+    simp [shiftOf, shiftStart]
+  refine ⟨hsh, ?_⟩
+  unfold decodeInt64
+  rw [hsh]
+  simp only [List.drop_one, List.tail_cons, Nat.pow_zero, Nat.mul_one]
+  have hu : sortable v < 2^64 := by unfold sortable; omega
+  have hn : nChars 0 = 10 := by decide
+  rw [hn, decode_digits 10 0 (sortable v) (by omega) (by omega)]
+  simp only [Nat.zero_mul, Nat.zero_add, Nat.mod_eq_of_lt hu]
+  rw [xor_top _ hu]
+  unfold toI64 sortable
+  congr 1
+  split <;> split <;> omega
+
+/-- a coarser term of the same value is not a shift-0 term -/
+theorem shiftOf_prefixCode (v : Int) (s : Nat) (hs : s < 63) (t : List Nat)
+    (ht : prefixCode v s = some t) : shiftOf t = some s := by
+  simp only [prefixCode, show ¬ (s > 63) by omega, if_false, Option.some.injEq] at ht
+  subst ht
+  simp only [shiftOf, shiftStart]
+  have : (32 + s + 256 - 32) % 256 = s := by omega
+  simp only [this, hs, if_true]
+
 /-! ## non-vacuity -/
 
 example : floatLt 0x3ff0000000000000#64 0x4000000000000000#64 = true := by decide   -- 1.0 < 2.0
@@ -190,5 +276,8 @@ example : floatLt 0xbff0000000000000#64 0x0000000000000001#64 = true := by decid
 example : (splitRange (-100) 1000).length = 5 := by decide
 example : rangeMatches none (some 0x3ff0000000000000#64) none (some true) 0x3ff0000000000000#64 = true := by
   decide
+
+example : decodeInt64 ((prefixCode (-42) 0).getD []) = some (-42) := by decide
+example : shiftOf ((prefixCode (-42) 8).getD []) = some 8 := by decide
 
 end Bleve.Numeric
